@@ -57,10 +57,15 @@ package yaml
 //@   requires n != nil
 //@   ensures result == n.contents
 //
+// haskey: the map node n has an entry whose key is the scalar `key`.
+//@ rpred haskey(n *node, key string) = exists k int :: 0 <= k && k < len(n.contents) && k % 2 == 0 && n.contents[k].(*node).value == key
+//
 //@ func (*node).MapKeys
 //@   requires n != nil && wfnode(Node(n)) && n.typeID == TypeIDMap
 //@   ensures [half-length] 2*len(result) == len(n.contents)
 //@   ensures [keys-in-order] forall j int :: 0 <= j && j < len(result) ==> result[j] == n.contents[2*j].(*node).value
+//@   ensures [keys-exist] forall j int :: 0 <= j && j < len(result) ==> haskey(n, result[j])
+//@   ensures [fresh-result] len(result) > 0 ==> fresh(result)
 //
 //@ func (node).MapKeys
 //@   loop 1 invariant i % 2 == 0 && 0 <= i && 2*len(result) == len(n.contents) && \
@@ -69,7 +74,7 @@ package yaml
 //@ func (*node).MapKey
 //@   requires n != nil && wfnode(Node(n)) && n.typeID == TypeIDMap
 //@   ensures [found-is-node] result1 ==> wfnode(result) && result.(*node) < n
-//@   ensures [existing-key-found] (exists k int :: 0 <= k && k < len(n.contents) && k % 2 == 0 && n.contents[k].(*node).value == key) ==> result1
+//@   ensures [existing-key-found] haskey(n, key) ==> result1
 //
 //@ func (node).MapKey
 //@   loop 1 invariant i % 2 == 0 && 0 <= i && \
